@@ -12,15 +12,16 @@ import (
 
 func init() {
 	register(&PropSpec{
-		ID: "C14",
+		ID:          "C14",
 		Explanation: "Structural necessary conditions for 'datagram messages are reassembled exactly or not at all'. B1: the header fields the sender writes (offset range, width, big-endian, role) are exactly the ones the receiver reads, and the payload starts at the header length on both sides. B2: every slice/index of the received datagram is dominated by a length guard whose minimal accepted length equals the header length (neither laxer nor stricter), and the segment index is compared with the slot array's length before indexing. B3: the sender refuses a segment count beyond the 16-bit field before narrowing. B4: the completion counter is incremented only for a slot that was empty. B5: each transport owning a reassembly buffer runs an expiry goroutine; Receive refreshes the expiry time and RemoveExpired deletes only expired entries. B6: the sequence number of every datagram message comes from an atomic add of 1 evaluated in that call. B7: the slot array's length is computed without 16-bit wrap-around.",
-		NotDecided: []string{"correctness over permutations, losses and interleavings", "expiry timing", "sequence-number wrap-around"},
+		NotDecided:  []string{"correctness over permutations, losses and interleavings", "expiry timing", "sequence-number wrap-around"},
 		Rules: func(r *Run) {
 			ruleC14B1B2(r)
 			ruleC14B3(r)
 			ruleC14B4(r)
 			ruleC14B5(r)
 			ruleC14B6(r)
+			ruleLoopDrivers(r, "B7", "the expiry sweep stays periodic: in the transports and the segment package every receive inside a loop from a time source is a Ticker, a time.After, or a Timer that is re-armed inside the loop when its branch continues the loop", func(fn *ssa.Function) bool { return strings.HasPrefix(fnPkgPath(fn), modPath+"/transport/") || fnPkgPath(fn) == modPath+"/internal/segment" }, 2)
 		},
 	})
 }
@@ -480,16 +481,22 @@ func ruleC14B5(r *Run) {
 		n++
 		name := fnName(fn)
 		ok := false
-		for _, cl := range fn.AnonFuncs {
-			if !isGoBody(cl) {
-				continue
-			}
-			for _, c := range findCalls(cl, false, "/internal/segment.ReadBuffers.RemoveExpired") {
-				if inLoop(c) {
+		// goroutines started by the constructor: closures or named functions/methods, followed through static calls
+		withAnon(fn, func(f *ssa.Function) {
+			allInstrs(f, func(ins ssa.Instruction) {
+				g, isGo := ins.(*ssa.Go)
+				if !isGo {
+					return
+				}
+				body := g.Call.StaticCallee()
+				if body == nil {
+					body = closureOf(g.Call.Value)
+				}
+				if body != nil && p.callsInLoop(body, 2, false, "/internal/segment.ReadBuffers.RemoveExpired") {
 					ok = true
 				}
-			}
-		}
+			})
+		})
 		r.Check(name+" expiry goroutine", ok, p.pos(lit.Alloc.Pos()), name, "the constructor must start a goroutine calling RemoveExpired in a loop, otherwise incomplete messages are never forgotten")
 	}
 	if n == 0 {
@@ -566,4 +573,31 @@ func ruleC14B6(r *Run) {
 			}
 		}
 	}
+}
+
+// callsInLoop: fn (or a static callee up to depth) calls one of names from inside a loop.
+func (p *Prog) callsInLoop(fn *ssa.Function, depth int, looped bool, names ...string) bool {
+	if fn == nil || fn.Blocks == nil {
+		return false
+	}
+	found := false
+	allInstrs(fn, func(ins ssa.Instruction) {
+		c, ok := ins.(*ssa.Call)
+		if !ok || found {
+			return
+		}
+		l := looped || inLoop(c)
+		if isCallNamed(c, names...) {
+			if l {
+				found = true
+			}
+			return
+		}
+		if depth > 0 {
+			if cf := c.Call.StaticCallee(); cf != nil && p.Analysed(cf) && p.callsInLoop(cf, depth-1, l, names...) {
+				found = true
+			}
+		}
+	})
+	return found
 }
